@@ -102,8 +102,9 @@ CHECKS.update({
                  "tables that define 'neighbour' and that cellToLocalIjk unfolds with (T1,T2,T3,T10); PENTAGON_ROTATIONS_REVERSE undoes PENTAGON_ROTATIONS (T14); the index rotations "
                  "both directions apply are exact for all index values (R-BITPROV); overflow-checked parents cannot wrap (R-OVF); failing callees make the callers fail (R-ERRFLOW); "
                  "the _NONPOLAR/_POLAR reverse rotation tables and the forward unfolding are inverse in both directions wherever both succeed (T20), likewise T14 for a pentagon origin; "
-                 "aperture-7 parent/child kernels (T21) and the ij/cube conversions (T22) are inverse linear maps.",
-                 "distance = graph distance, inverse pair beyond T14, the _POLAR/_NONPOLAR tables.", "R-GUARD " + G + "; R-TAB T1,T2,T3,T10,T14,T20,T21,T22 " + TAB + "; " + BP + "; R-OVF; R-ERRFLOW"),
+                 "aperture-7 parent/child kernels (T21) and the ij/cube conversions (T22) are inverse linear maps; coordinates more than one base cell away are rejected before the "
+                 "base-cell lookup: INVALID_DIGIT from _unitIjkToDigit never reaches a 7-wide table subscript (R-UNITVEC).",
+                 "distance = graph distance; the rejection of the deleted direction inside localIjkToCell.", "R-GUARD " + G + "; R-TAB T1,T2,T3,T10,T14,T20,T21,T22 " + TAB + "; " + BP + "; R-OVF; R-ERRFLOW; R-UNITVEC range-test/typestate rule"),
  "C10": _partial("C10", "isValidDirectedEdge conjuncts (direction 1..6, mode 2 via getDirectedEdgeOrigin, not K on a pentagon, valid origin) and acceptance when all hold; "
                  "E_NOT_NEIGHBORS and E_DIR_EDGE_INVALID clauses; direction<->vertex-number maps (T8), pentagon direction/face table (T12); edgeLengthKm/M unit factors; for all 2^64 "
                  "values isValidDirectedEdge accepts EXACTLY mode 2, direction 1..6 (not 1 on a pentagon) over a valid origin, and getDirectedEdgeOrigin stores exactly the edge with mode 1 and "
@@ -117,7 +118,7 @@ CHECKS.update({
                  "every non-zero code of the callee the caller cannot reach `return E_SUCCESS` (R-ERRFLOW, one justified exception); overflow-checked helpers cannot wrap (R-OVF); no "
                  "argument-derived table subscript beyond the extent (R-IDX: index bit fields and integer parameters); every R-BITPROV instance; all bounded-write instances; every hash probe wraps with its starting modulus; error enum witnesses; maxGridDiskSize closed form.",
                  "absence of undefined behaviour in general (signed overflow outside the checked helpers, float-to-int conversions, recursion depth), NEVER()/ALWAYS() reachability.",
-                 "R-GUARD/R-CONJ " + G + "; R-RET error-code value-set propagation; R-ERRDISC/R-ERRFLOW error-flow rules; R-OVF; R-IDX; R-BW; R-SIB; R-WIT " + WIT),
+                 "R-GUARD/R-CONJ " + G + "; R-RET error-code value-set propagation; R-ERRDISC/R-ERRFLOW error-flow rules; R-OVF; R-IDX; R-UNITVEC; R-BW; R-SIB; R-WIT " + WIT),
  "C13": _partial("C13", "the three rejection clauses of childPosToCell (E_RES_DOMAIN, E_RES_MISMATCH, E_DOMAIN via validateChildPos incl. position == size) and of cellToChildPos; "
                  "positions -1, size, size+1, INT64_MAX, INT64_MIN are rejected without a store for every parent and all 136 resolution pairs; the child-count closed forms; "
                  "cellToChildPos(h) is the RANK of h among the children in index order for every valid child (per-digit contribution tables equal the rank formula: base-7 value of "
@@ -128,7 +129,8 @@ CHECKS.update({
                  "R-GUARD " + G + "; R-CFORM " + CF + "; " + BP + " extended by a digit-contribution (lane-sum) domain with if-conversion; R-ERRFLOW"),
  "C14": _partial("C14", "announced size = gridDistance + 1 (errors passed on, nothing stored); gridPathCells writes out[n] only for n <= distance of the same callee's result, also on "
                  "the failing exits; resolution-mismatch rejection; a failing localIjkToCell makes gridPathCells fail (R-ERRFLOW); the rotation tables / kernels / cube conversion the "
-                 "interpolation relies on (T14, T20, T21, T22).", "contiguity / shortest path (floating interpolation).", "R-CFORM " + CF + "; R-BW " + BW + "; R-GUARD " + G + "; R-ERRFLOW; R-TAB T14,T20,T21,T22 " + TAB),
+                 "interpolation relies on (T14, T20, T21, T22); localIjkToCell rejects coordinates more than one base cell away before the base-cell lookup (R-UNITVEC).",
+                 "contiguity / shortest path (floating interpolation).", "R-CFORM " + CF + "; R-BW " + BW + "; R-GUARD " + G + "; R-ERRFLOW; R-TAB T14,T20,T21,T22 " + TAB + "; R-UNITVEC range-test/typestate rule"),
  "C15": _partial("C15", "out[i] only where i < size, E_MEMORY_BOUNDS when the capacity is reached; flags outside {0,1,2,3} => E_OPTION_INVALID on both experimental entry points; "
                  "containment-mode enum/mask witnesses.",
                  "what each containment mode means geometrically, nestedness, the size estimate being an upper bound.", "R-BW " + BW + "; R-GUARD " + G + "; R-WIT " + WIT),
